@@ -139,7 +139,8 @@ CONFIGS: Dict[str, Dict[str, List[Dict[str, Any]]]] = {
         ],
     },
     "LevelBasedForaging": {
-        "quick": [_c("default"), _c("g6a3f2v2gridL7", grid_size=6, agents=3, food=2, fov=2, grid_obs=True, time_limit=7)],
+        "quick": [_c("default"), _c("g6a3f2v2gridL7", grid_size=6, agents=3, food=2, fov=2, grid_obs=True, time_limit=7),
+                  _c("g6a3f2v1L20", grid_size=6, agents=3, food=2, fov=1, time_limit=20)],
         "thorough": [
             _c("default"), _c("g5a1f1v1L3", grid_size=5, agents=1, food=1, fov=1, time_limit=3),
             _c("g6a3f2v2gridL7", grid_size=6, agents=3, food=2, fov=2, grid_obs=True, time_limit=7),
@@ -148,6 +149,7 @@ CONFIGS: Dict[str, Dict[str, List[Dict[str, Any]]]] = {
             _c("g8a2f3v8gridL2", grid_size=8, agents=2, food=3, fov=8, grid_obs=True, max_level=3, time_limit=2),
             _c("g5a2f1v2L1", grid_size=5, agents=2, food=1, fov=2, time_limit=1),
             _c("g5a3f1v5L30", grid_size=5, agents=3, food=1, fov=5, time_limit=30),
+            _c("g6a3f2v1L20", grid_size=6, agents=3, food=2, fov=1, time_limit=20),
         ],
     },
     "Maze": {
